@@ -233,6 +233,23 @@ def r3_visited_on_representative(ctx, F):
                             pass                                  # the path so far
                         else:
                             concat_ops.append(None)
+                elif pc is not None and pc.is_('Iterator::collect', 'FromIterator::from_iter') and pc.args:
+                    # `old.iter().copied().chain(once(fp)).collect()`: the parts of the chain, in order
+                    def chain_parts(v, depth=0):
+                        v = noref(b.trace(noref(v), ('Iterator::copied', 'Iterator::cloned', 'IntoIterator::into_iter')))
+                        cc_ = b.call_at(v.key) if v.kind == 'call' and not v.fields() else None
+                        if cc_ is not None and cc_.is_('Iterator::chain') and len(cc_.args) == 2 and depth < 6:
+                            return chain_parts(b.val(cc_.args[0]), depth + 1) + chain_parts(b.val(cc_.args[1]), depth + 1)
+                        return [(v, cc_)]
+                    for (pv_, cc_) in chain_parts(b.val(pc.args[0])):
+                        if cc_ is not None and cc_.is_('iter::once', 'sources::once::once', 'option::Option::into_iter'):
+                            concat_ops.append(b.val(cc_.args[0]))          # the appended fingerprint
+                        elif cc_ is not None and cc_.is_('slice::iter', 'Vec::iter', 'Deref::deref'):
+                            pass                                            # the path so far
+                        elif pv_.kind == 'agg' and pv_.key[2] == 'Some' and pv_.key[3]:
+                            concat_ops.append(pv_.key[3][0])
+                        else:
+                            concat_ops.append(None)
                 from taint import origins_under
                 nfp = 0
                 bad_src = None
